@@ -280,12 +280,12 @@ func LockWaits() int {
 type Pool struct {
 	New   func() any
 	real  sync.Pool
-	items []any
+	items []any // fixed capacity: append never grows it (growslice is annotated by the runtime)
 	reg   bool
 }
 
 var (
-	pools   []*Pool
+	pools   = make([]*Pool, 0, 16)
 	poolCtr uint64
 	runSeed uint64
 )
@@ -371,7 +371,10 @@ func (p *Pool) Put(x any) {
 		p.reg = true
 		pools = append(pools, p)
 	}
-	if len(p.items) < 64 {
+	if p.items == nil {
+		p.items = make([]any, 0, 64)
+	}
+	if len(p.items) < cap(p.items) {
 		p.items = append(p.items, x)
 	}
 	unlockMu()
